@@ -80,7 +80,11 @@ Cand5 == { C("P1", Pt(3, NT)),                                       \* move a p
 MAddG(g, id, f) == [op |-> "add", g |-> g, id |-> id, f |-> f, k |-> "", v |-> ""]
 MTagG(g, id, k, v) == [op |-> "addtag", g |-> g, id |-> id, f |-> Absent, k |-> k, v |-> v]
 MRmG(g, id, k) == [op |-> "rmtag", g |-> g, id |-> id, f |-> Absent, k |-> k, v |-> ""]
-Cand7 == { C("P3", Pt(5, NT)) }
+Cand7 == { C("P3", Pt(5, NT)),
+           \* replacements that pass their own validation and are rejected for a referrer (A1 over W1): the world,
+           \* including tag edits pending on the replaced feature, must stay as it was
+           C("W1", Pa(<<"P0", "P1">>, NT)),
+           C("P1", Pt(3, NT)) }
 Merges7 == { \* parts of one item each
              <<MAddG(1, "P3", Pt(5, T("-", "-", "x"))), MAddG(2, "W2", Pa(<<"P0", "P3">>, T("x", "-", "-")))>>,
              <<MAddG(1, "W2", Pa(<<"P0", "P3">>, NT))>>,
@@ -126,13 +130,15 @@ MCCandidates == CASE Scenario = 7 -> Cand7 [] Scenario = 8 -> Cand8 [] Scenario 
                   [] Scenario = 4 -> Cand4 [] Scenario = 5 -> Cand5 [] Scenario = 6 -> Cand5
 MCAddTagOps ==
    CASE Scenario = 1 -> {<<"P0", "#s", "x">>, <<"P0", "#s", "y">>, <<"P0", "n", "y">>,
+                         <<"P0", "n", "x">>,     \* the base's own value again, after it was overwritten or removed
                          <<"A1", "#s", "x">>, <<"A1", "n", "x">>, <<"A1", "@t", "x">>,
                          <<"P3", "n", "x">>, <<"P3", "#s", "y">>}
      [] Scenario = 2 -> {<<"W1", "#s", "y">>, <<"W1", "n", "x">>, <<"W1", "@t", "y">>,
+                         <<"W1", "n", "y">>,     \* the base's own value again
                          <<"R1", "#s", "y">>, <<"R1", "n", "x">>,
                          <<"C1", "#s", "x">>, <<"C1", "n", "y">>, <<"P4", "n", "x">>}
      [] Scenario = 5 -> {<<"P0", "#s", "y">>, <<"P0", "n", "x">>}
-     [] Scenario = 7 -> {<<"P0", "n", "y">>}
+     [] Scenario = 7 -> {<<"P0", "n", "y">>, <<"W1", "n", "y">>, <<"P1", "n", "x">>}   \* pending plain-tag edits on base-only features
      [] Scenario = 6 -> {<<"P0", "#s", "y">>}
      [] Scenario = 9 -> {<<"P0", "n", "x">>, <<"P0", "n", "y">>, <<"W1", "n", "x">>, <<"P0", "#s", "y">>}
      [] OTHER -> {}
